@@ -46,11 +46,12 @@ structure DateText where
   render : Int → List Char
   parse : List Char → Option Int
 
-/-- The laws the theorems need: a rendered date reads back, and contains no separator. -/
-structure DateText.OK (dt : DateText) : Prop where
-  roundtrip : ∀ d, dt.parse (dt.render d) = some d
-  noComma : ∀ d, ',' ∉ dt.render d
-  noNewline : ∀ d, '\n' ∉ dt.render d
+/-- The laws the theorems need, for the dates of a domain `dom`: a rendered date reads back, and
+    contains no separator. -/
+structure DateText.OK (dt : DateText) (dom : Int → Prop) : Prop where
+  roundtrip : ∀ d, dom d → dt.parse (dt.render d) = some d
+  noComma : ∀ d, dom d → ',' ∉ dt.render d
+  noNewline : ∀ d, dom d → '\n' ∉ dt.render d
 
 /-- A row as it is written: the date and the text of the rate (`Decimal::to_string`). -/
 structure TextRow where
@@ -90,47 +91,62 @@ def parseFile (dt : DateText) (bytes : List Char) : List DailyRate :=
 
 /-! ### The concrete date text `YYYY-MM-DD` of the driver -/
 
+/-- Is the year of `y` a leap year (366 days between its January 1 and the next)? -/
+def civilLeap (y : Int) : Bool := civilYearStart (y + 1) - civilYearStart y == 366
+
+/-- Days of the year before month `m` (`m = 13`: the whole year). -/
+def monthStart (leap : Bool) (m : Int) : Int :=
+  let l : Int := if leap then 1 else 0
+  if m ≤ 1 then 0 else if m = 2 then 31
+  else l + (if m = 3 then 59 else if m = 4 then 90 else if m = 5 then 120 else if m = 6 then 151
+            else if m = 7 then 181 else if m = 8 then 212 else if m = 9 then 243 else if m = 10 then 273
+            else if m = 11 then 304 else if m = 12 then 334 else 365)
+
+/-- The month containing day-of-year `doy` (0-based). -/
+def monthOf (leap : Bool) (doy : Int) : Int :=
+  if doy < monthStart leap 2 then 1 else if doy < monthStart leap 3 then 2
+  else if doy < monthStart leap 4 then 3 else if doy < monthStart leap 5 then 4
+  else if doy < monthStart leap 6 then 5 else if doy < monthStart leap 7 then 6
+  else if doy < monthStart leap 8 then 7 else if doy < monthStart leap 9 then 8
+  else if doy < monthStart leap 10 then 9 else if doy < monthStart leap 11 then 10
+  else if doy < monthStart leap 12 then 11 else 12
+
 /-- year, month, day of a Julian day number (proleptic Gregorian). -/
 def civilYMD (jdn : Int) : Int × Int × Int :=
-  let z := jdn - 2440588 + 719468
-  let era := z / 146097
-  let doe := z - era * 146097
-  let yoe := (doe - doe / 1460 + doe / 36524 - doe / 146096) / 365
-  let y := yoe + era * 400
-  let doy := doe - (365 * yoe + yoe / 4 - yoe / 100)
-  let mp := (5 * doy + 2) / 153
-  let d := doy - (153 * mp + 2) / 5 + 1
-  let m := if mp < 10 then mp + 3 else mp - 9
-  (if m ≤ 2 then y + 1 else y, m, d)
+  let y := civilYearOf jdn
+  let doy := jdn - civilYearStart y
+  let m := monthOf (civilLeap y) doy
+  (y, m, doy - monthStart (civilLeap y) m + 1)
 
-def daysFromCivil (y m d : Int) : Int :=
-  let y' := if m ≤ 2 then y - 1 else y
-  let era := y' / 400
-  let yoe := y' - era * 400
-  let mp := if m > 2 then m - 3 else m + 9
-  let doy := (153 * mp + 2) / 5 + d - 1
-  let doe := yoe * 365 + yoe / 4 - yoe / 100 + doy
-  era * 146097 + doe - 719468 + 2440588
+def daysFromCivil (y m d : Int) : Int := civilYearStart y + monthStart (civilLeap y) m + d - 1
 
-def padNat (w n : Nat) : List Char :=
-  let s := (toString n).toList
-  List.replicate (w - s.length) '0' ++ s
+def digitChar (k : Nat) : Char := Char.ofNat (48 + k)
 
+def pad2 (n : Nat) : List Char := [digitChar (n / 10 % 10), digitChar (n % 10)]
+
+def pad4 (n : Nat) : List Char :=
+  [digitChar (n / 1000 % 10), digitChar (n / 100 % 10), digitChar (n / 10 % 10), digitChar (n % 10)]
+
+/-- `Date::to_string` for the years 0000-9999. -/
 def civilRenderDate (jdn : Int) : List Char :=
   let (y, m, d) := civilYMD jdn
-  padNat 4 y.toNat ++ '-' :: padNat 2 m.toNat ++ '-' :: padNat 2 d.toNat
+  pad4 y.toNat ++ '-' :: pad2 m.toNat ++ '-' :: pad2 d.toNat
 
+/-- `parse_standard_date` (`[year]-[month]-[day]`: 4, 2 and 2 digits, a date that exists). -/
 def civilParseDate (s : List Char) : Option Int :=
   match s with
   | [y1, y2, y3, y4, '-', m1, m2, '-', d1, d2] =>
     match parseDigits [y1, y2, y3, y4], parseDigits [m1, m2], parseDigits [d1, d2] with
     | some y, some m, some d =>
       let j := daysFromCivil y m d
-      -- a valid calendar date is one that survives the round trip
+      -- a date exists iff it survives the round trip
       if civilYMD j = ((y : Int), (m : Int), (d : Int)) then some j else none
     | _, _, _ => none
   | _ => none
 
 def civilDateText : DateText := { render := civilRenderDate, parse := civilParseDate }
+
+/-- The days of the years 0000 … 9999. -/
+def CivilDom (d : Int) : Prop := civilYearStart 0 ≤ d ∧ d < civilYearStart 10000
 
 end Acb.Fx
